@@ -14,11 +14,6 @@ Definition class_shape (t : tclass) (ns np : nat) (s : rsched) : Prop :=
   | Qmpt => exists i j, (0 <= i < Z.of_nat ns)%Z /\ (0 <= j < Z.of_nat np)%Z /\
                         s = sched_of [(KState, i); (KMprocess, 0%Z); (KPovm, j)]
   end.
-(* what StandardQmpt really accepts: the documented shape followed by any number of ("mprocess", 0) items *)
-Definition qmpt_accepted_shape (ns np : nat) (s : rsched) : Prop :=
-  exists i j n, (0 <= i < Z.of_nat ns)%Z /\ (0 <= j < Z.of_nat np)%Z /\
-                s = sched_of ([(KState, i); (KMprocess, 0%Z); (KPovm, j)] ++ repeat (KMprocess, 0%Z) n).
-
 (* ================================================================== sizes of the class experiments *)
 Definition class_size (t : tclass) (ns np : nat) (k : kind) : Z :=
   match t, k with
@@ -39,44 +34,46 @@ Proof.
   intros H. unfold typed_of, sched_of.
   assert (E : validate_items c 0 (map raw t) = inl t) by (apply validate_items_inl_iff; auto). now rewrite E.
 Qed.
-Lemma guard_from_ok_iff t c ss : forall i,
-  guard_from t c i ss = TOk <-> Forall (fun s => guard_one t (typed_of c s) = GPass) ss.
+Lemma guard_from_ok_iff g c ss : forall i,
+  guard_from g c i ss = TOk <-> Forall (fun s => g (typed_of c s) = GPass) ss.
 Proof.
   induction ss as [|s ss IH]; intros i; cbn; [split; [constructor|reflexivity]|].
-  destruct (guard_one t (typed_of c s)) eqn:E.
+  destruct (g (typed_of c s)) eqn:E.
   - rewrite IH. split; [intros H; now constructor | intros H; now inversion H].
   - split; [discriminate | intros H; inversion H; congruence].
   - split; [discriminate | intros H; inversion H; congruence].
 Qed.
 (* accepted = Experiment accepts and the guard passes, schedule by schedule, on the typed items *)
-Definition accepted_typed (t : tclass) (ns np : nat) (items : list titem) : Prop :=
-  Forall (in_range (class_cfg t ns np)) items /\ order_ok items /\ guard_one t items = GPass.
-Lemma tomo_run_ok_iff t ns np ss :
-  tomo_run t ns np ss = TOk <->
-  Forall (fun s => exists items, s = sched_of items /\ accepted_typed t ns np items) ss.
+Definition accepted_typed_with (g : list titem -> gres) (t : tclass) (ns np : nat) (items : list titem) : Prop :=
+  Forall (in_range (class_cfg t ns np)) items /\ order_ok items /\ g items = GPass.
+Definition accepted_typed (t : tclass) := accepted_typed_with (guard_one t) t.
+Lemma tomo_run_with_ok_iff g t ns np ss :
+  tomo_run_with g t ns np ss = TOk <->
+  Forall (fun s => exists items, s = sched_of items /\ accepted_typed_with g t ns np items) ss.
 Proof.
-  unfold tomo_run. set (c := class_cfg t ns np).
+  unfold tomo_run_with. set (c := class_cfg t ns np).
+  assert (R : validate_schedules c ss <> VOk ->
+              ~ Forall (fun s => exists items, s = sched_of items /\ accepted_typed_with g t ns np items) ss).
+  { intros N H. apply N. apply experiment_accepts_iff. rewrite Forall_forall in *. intros s Hin.
+    destruct (H s Hin) as (items & -> & Hr & Ho & _). exists items. split; [reflexivity|split; assumption]. }
   destruct (validate_schedules c ss) eqn:E.
-  - apply experiment_accepts_iff in E. rewrite guard_from_ok_iff. rewrite !Forall_forall in *. split.
+  - clear R. apply experiment_accepts_iff in E. rewrite guard_from_ok_iff. rewrite !Forall_forall in *. split.
     + intros G s Hin. destruct (E s Hin) as (items & -> & Hr & Ho). exists items. split; [reflexivity|].
       specialize (G _ Hin). fold (sched_of items) in G. rewrite typed_of_sched_of in G by assumption. split; [assumption|split; assumption].
     + intros H s Hin. destruct (H s Hin) as (items & -> & Hr & Ho & G). now rewrite typed_of_sched_of.
-  - split; [discriminate|]. intros H. exfalso.
-    assert (W : validate_schedules c ss = VOk).
-    { apply experiment_accepts_iff. rewrite Forall_forall in *. intros s Hin. destruct (H s Hin) as (items & -> & Hr & Ho & _).
-      exists items. split; [reflexivity|split; assumption]. }
-    congruence.
-  - split; [discriminate|]. intros H. exfalso.
-    assert (W : validate_schedules c ss = VOk).
-    { apply experiment_accepts_iff. rewrite Forall_forall in *. intros s Hin. destruct (H s Hin) as (items & -> & Hr & Ho & _).
-      exists items. split; [reflexivity|split; assumption]. }
-    congruence.
-  - split; [discriminate|]. intros H. exfalso.
-    assert (W : validate_schedules c ss = VOk).
-    { apply experiment_accepts_iff. rewrite Forall_forall in *. intros s Hin. destruct (H s Hin) as (items & -> & Hr & Ho & _).
-      exists items. split; [reflexivity|split; assumption]. }
-    congruence.
+  - split; [discriminate|]. intros H. exfalso. apply R; [discriminate|exact H].
+  - split; [discriminate|]. intros H. exfalso. apply R; [discriminate|exact H].
+  - split; [discriminate|]. intros H. exfalso. apply R; [discriminate|exact H].
 Qed.
+Lemma tomo_run_ok_iff t ns np ss :
+  tomo_run t ns np ss = TOk <->
+  Forall (fun s => exists items, s = sched_of items /\ accepted_typed t ns np items) ss.
+Proof. apply tomo_run_with_ok_iff. Qed.
+(* the length test is vacuous for the three classes that do not have it *)
+Lemma guard_one_core t s : class_len t = None -> guard_one t s = guard_core t s.
+Proof. unfold guard_one, len_ok. now intros ->. Qed.
+Lemma guard_one_pass t s : guard_one t s = GPass -> guard_core t s = GPass /\ len_ok t s = true.
+Proof. unfold guard_one. destruct (len_ok t s); [auto|discriminate]. Qed.
 
 Lemma last_pos {A} (items front : list A) x : items = front ++ [x] ->
   nth_error items (List.length front) = Some x /\ List.length items = S (List.length front).
@@ -132,10 +129,10 @@ Proof.
 Qed.
 
 (* ================================================================== QPT *)
-Lemma guard3 t s k1 k2 : class_kinds t = [KState; k1; k2] -> guard_one t s = GPass ->
+Lemma guard3 t s k1 k2 : class_kinds t = [KState; k1; k2] -> guard_core t s = GPass ->
   exists z0 z1 z2 tail, s = (KState, z0) :: (k1, z1) :: (k2, z2) :: tail.
 Proof.
-  unfold guard_one. intros ->. cbn.
+  unfold guard_core. intros ->. cbn.
   destruct s as [|[k0' z0] [|[k1' z1] [|[k2' z2] tail]]]; cbn; try discriminate.
   - destruct (kind_eqb k0' KState); discriminate.
   - destruct (kind_eqb k0' KState); [|discriminate]. destruct (kind_eqb k1' k1); discriminate.
@@ -149,6 +146,7 @@ Lemma qpt_typed ns np items :
 Proof.
   split.
   - intros (Hr & (Hlen & _ & Hp & (front & k & z & Hlast & Hk)) & G).
+    rewrite guard_one_core in G by reflexivity.
     destruct (guard3 Qpt items KGate KPovm eq_refl G) as (z0 & z1 & z2 & tail & ->).
     assert (Hin : In (k, z) ((KState, z0) :: (KGate, z1) :: (KPovm, z2) :: tail)) by (rewrite Hlast; apply in_or_app; right; now left).
     pose proof (last_pos _ _ _ Hlast) as [Hnth Hl].
@@ -165,50 +163,19 @@ Proof.
     + reflexivity.
 Qed.
 
-(* ================================================================== QMPT: exactly what is accepted *)
-Lemma nth_error_tail3 {A} (a b c : A) tail n : nth_error (a :: b :: c :: tail) (3 + n) = nth_error tail n.
-Proof. reflexivity. Qed.
+(* ================================================================== QMPT *)
 Lemma qmpt_typed ns np items :
   accepted_typed Qmpt ns np items <->
-  exists i j n, (0 <= i < Z.of_nat ns)%Z /\ (0 <= j < Z.of_nat np)%Z /\
-                items = [(KState, i); (KMprocess, 0%Z); (KPovm, j)] ++ repeat (KMprocess, 0%Z) n.
+  exists i j, (0 <= i < Z.of_nat ns)%Z /\ (0 <= j < Z.of_nat np)%Z /\ items = [(KState, i); (KMprocess, 0%Z); (KPovm, j)].
 Proof.
   split.
-  - intros (Hr & (Hlen & (z & rest & Hst & Hns) & Hp & _) & G).
+  - intros (Hr & _ & G). apply guard_one_pass in G. destruct G as [G L].
     destruct (guard3 Qmpt items KMprocess KPovm eq_refl G) as (z0 & z1 & z2 & tail & ->).
-    injection Hst as <- <-.
-    rewrite Forall_forall in Hr.
-    pose proof (Hr (KState, z0) (or_introl eq_refl)) as H0. pose proof (Hr (KMprocess, z1) (or_intror (or_introl eq_refl))) as H1.
-    pose proof (Hr (KPovm, z2) (or_intror (or_intror (or_introl eq_refl)))) as H2.
-    apply in_range_class in H0, H1, H2. cbn in H0, H1, H2.
-    assert (Ht : Forall (eq (KMprocess, 0%Z)) tail).
-    { apply Forall_forall. intros [k zz] Hin.
-      assert (Hin' : In (k, zz) ((KState, z0) :: (KMprocess, z1) :: (KPovm, z2) :: tail)) by (right; right; right; exact Hin).
-      pose proof (Hr _ Hin') as Hkz. apply in_range_class in Hkz.
-      inversion Hns as [|? ? _ Hns1]; subst. inversion Hns1 as [|? ? _ Hns2]; subst. rewrite Forall_forall in Hns2.
-      pose proof (Hns2 _ Hin) as Hk. cbn [fst] in Hk.
-      destruct k; cbn in Hkz; try lia; try contradiction.
-      - exfalso. apply In_nth_error in Hin. destruct Hin as [n Hn].
-        specialize (Hp 2%nat (3 + n)%nat z2 zz eq_refl). rewrite nth_error_tail3 in Hp. specialize (Hp Hn). lia.
-      - f_equal. lia. }
-    apply Forall_eq_repeat in Ht. exists z0, z2, (List.length tail). repeat split; try lia.
-    cbn [app]. rewrite <- Ht. f_equal. f_equal. f_equal. lia.
-  - intros (i & j & n & Hi & Hj & ->). split; [|split].
-    + apply Forall_app. split.
-      * range_list.
-      * apply Forall_forall. intros x Hx. apply repeat_spec in Hx. subst x. apply in_range_class. cbn. lia.
-    + split; [cbn; lia|]. split; [|split].
-      * exists i, ((KMprocess, 0%Z) :: (KPovm, j) :: repeat (KMprocess, 0%Z) n). split; [reflexivity|].
-        constructor; [discriminate|]. constructor; [discriminate|].
-        apply Forall_forall. intros x Hx. apply repeat_spec in Hx. subst x. discriminate.
-      * assert (P2 : forall a za, nth_error ([(KState, i); (KMprocess, 0%Z); (KPovm, j)] ++ repeat (KMprocess, 0%Z) n) a = Some (KPovm, za) -> a = 2%nat).
-        { intros [|[|[|a]]] za; cbn; try discriminate; [reflexivity|].
-          intros H. apply nth_error_In in H. apply repeat_spec in H. discriminate. }
-        intros a b za zb Ha Hb. apply P2 in Ha, Hb. congruence.
-      * destruct n as [|n].
-        -- exists [(KState, i); (KMprocess, 0%Z)], KPovm, j. split; [reflexivity|now left].
-        -- exists ([(KState, i); (KMprocess, 0%Z); (KPovm, j)] ++ repeat (KMprocess, 0%Z) n), KMprocess, 0%Z.
-           split; [|now right]. rewrite <- app_assoc. f_equal. cbn [repeat]. apply repeat_cons.
+    cbn in L. destruct tail; [|discriminate L].
+    range_facts. exists z0, z2. repeat split; try lia. f_equal. f_equal. f_equal. lia.
+  - intros (i & j & Hi & Hj & ->). split; [|split].
+    + range_list.
+    + now apply validate_order_none_iff.
     + reflexivity.
 Qed.
 
@@ -234,42 +201,47 @@ Proof.
   - intros (items & -> & H). apply qpt_typed in H. destruct H as (i & j & Hi & Hj & ->). now exists i, j.
   - intros (i & j & Hi & Hj & ->). eexists. split; [reflexivity|]. apply qpt_typed. now exists i, j.
 Qed.
-Theorem qmpt_accepts_iff ns np ss : tomo_run Qmpt ns np ss = TOk <-> Forall (qmpt_accepted_shape ns np) ss.
+Theorem qmpt_accepts_iff ns np ss : tomo_run Qmpt ns np ss = TOk <-> Forall (class_shape Qmpt ns np) ss.
 Proof.
-  rewrite tomo_run_ok_iff. apply Forall_iff. intros s. unfold qmpt_accepted_shape. split.
-  - intros (items & -> & H). apply qmpt_typed in H. destruct H as (i & j & n & Hi & Hj & ->). now exists i, j, n.
-  - intros (i & j & n & Hi & Hj & ->). eexists. split; [reflexivity|]. apply qmpt_typed. now exists i, j, n.
+  rewrite tomo_run_ok_iff. apply Forall_iff. intros s. cbn [class_shape]. split.
+  - intros (items & -> & H). apply qmpt_typed in H. destruct H as (i & j & Hi & Hj & ->). now exists i, j.
+  - intros (i & j & Hi & Hj & ->). eexists. split; [reflexivity|]. apply qmpt_typed. now exists i, j.
 Qed.
-Theorem tomo_accepts_iff_shape t ns np ss : t <> Qmpt ->
-  (tomo_construct t ns np (AList ss) = TOk <-> Forall (class_shape t ns np) ss).
+(* ALL FOUR classes accept exactly the schedule lists of their own shape *)
+Theorem tomo_accepts_iff_shape t ns np ss :
+  tomo_construct t ns np (AList ss) = TOk <-> Forall (class_shape t ns np) ss.
 Proof.
-  intros Ht. cbn [tomo_construct]. destruct t; [apply qst_accepts_iff|apply povmt_accepts_iff|apply qpt_accepts_iff|contradiction].
+  cbn [tomo_construct]. destruct t; [apply qst_accepts_iff|apply povmt_accepts_iff|apply qpt_accepts_iff|apply qmpt_accepts_iff].
 Qed.
-(* every class accepts all schedules of its own shape *)
 Theorem tomo_accepts_shape t ns np ss : Forall (class_shape t ns np) ss -> tomo_construct t ns np (AList ss) = TOk.
+Proof. apply tomo_accepts_iff_shape. Qed.
+(* no IndexError escapes from a class guard any more: the guards of QST / POVMT / QPT are only reached with schedules the
+   Experiment accepted (>= 2 items, last one a measurement), for which Python's short-circuit  or  stops before an index
+   runs off the end, and QMPT's length test comes first.  (Before the repair [state i, mprocess 0] did escape with
+   IndexError: Proofs/C20_PreFix.v.) *)
+Lemma guard_one_no_index_error t items : order_ok items -> guard_one t items <> GIndexError.
 Proof.
-  cbn [tomo_construct]. destruct t; [apply qst_accepts_iff|apply povmt_accepts_iff|apply qpt_accepts_iff|].
-  intros H. apply qmpt_accepts_iff. rewrite Forall_forall in *. intros s Hs. destruct (H s Hs) as (i & j & Hi & Hj & ->).
-  now exists i, j, 0%nat.
+  intros (Hlen & _ & _ & (front & k & z & Hlast & Hk)).
+  destruct items as [|[k0 z0] [|[k1 z1] [|[k2 z2] rest]]]; cbn in Hlen; try lia.
+  - pose proof (last_pos _ _ _ Hlast) as [Hnth Hl]. cbn in Hl. injection Hl as Hl. rewrite <- Hl in Hnth. cbn in Hnth.
+    injection Hnth as <- <-.
+    unfold guard_one, len_ok, guard_core.
+    destruct t, k0, k1; cbn; try discriminate; try (destruct (z0 =? 0)%Z; discriminate); try (destruct (z1 =? 0)%Z; discriminate);
+      destruct Hk; discriminate.
+  - unfold guard_one, len_ok, guard_core.
+    destruct t, k0, k1, k2; cbn; try discriminate; try (destruct (z0 =? 0)%Z; discriminate); try (destruct (z1 =? 0)%Z; discriminate);
+      destruct rest; cbn; try discriminate; destruct (z1 =? 0)%Z; discriminate.
 Qed.
-(* ... but StandardQmpt also accepts schedules that are NOT of its shape *)
-Theorem qmpt_accepts_longer_schedule_refuted :
-  exists ns np s, tomo_construct Qmpt ns np (AList [s]) = TOk /\ ~ class_shape Qmpt ns np s.
+Theorem tomo_no_index_error t ns np ss i : tomo_construct t ns np (AList ss) <> TGuardIndexError i.
 Proof.
-  exists 1%nat, 1%nat, (sched_of [(KState, 0%Z); (KMprocess, 0%Z); (KPovm, 0%Z); (KMprocess, 0%Z)]). split; [reflexivity|].
-  intros (i & j & _ & _ & H). apply sched_of_inj in H. discriminate.
-Qed.
-(* ... and runs off the end of a schedule [state i, mprocess 0] (IndexError instead of ValueError) *)
-Theorem qmpt_short_schedule_index_error ns np i : (0 <= i < Z.of_nat ns)%Z ->
-  tomo_construct Qmpt ns np (AList [sched_of [(KState, i); (KMprocess, 0%Z)]]) = TGuardIndexError 0.
-Proof.
-  intros Hi. cbn [tomo_construct]. unfold tomo_run.
-  assert (Hr : Forall (in_range (class_cfg Qmpt ns np)) [(KState, i); (KMprocess, 0%Z)])
-    by (range_list).
-  assert (W : validate_schedules (class_cfg Qmpt ns np) [sched_of [(KState, i); (KMprocess, 0%Z)]] = VOk).
-  { apply experiment_accepts_iff. constructor; [|constructor]. eexists. split; [reflexivity|]. split; [exact Hr|].
-    now apply validate_order_none_iff. }
-  rewrite W. cbn [guard_from]. now rewrite typed_of_sched_of.
+  cbn [tomo_construct]. unfold tomo_run, tomo_run_with. set (c := class_cfg t ns np).
+  destruct (validate_schedules c ss) eqn:E; try discriminate.
+  apply experiment_accepts_iff in E. clearbody c. generalize 0%nat as i0. revert i.
+  induction ss as [|s ss IH]; intros i i0; cbn; [discriminate|].
+  inversion E as [|? ? Hs Hss]; subst. destruct Hs as (items & -> & Hr & Ho).
+  fold (sched_of items). rewrite typed_of_sched_of by assumption.
+  destruct (guard_one t items) eqn:G; [now apply IH|discriminate|].
+  exfalso. revert G. now apply guard_one_no_index_error.
 Qed.
 
 (* ================================================================== schedules="all" and other strings *)
